@@ -24,7 +24,7 @@ ASSUMPTIONS = ["generated identifiers do not appear in the compared trace (no ac
 
 GROUPS = {"quick": 4, "thorough": 4}
 SEEDS = {"quick": [0, 1, 2, 3], "thorough": list(range(16))}
-PER_GROUP = {"quick": 100, "thorough": 1500}
+PER_GROUP = {"quick": 100, "thorough": 400}
 NEV = {"quick": 14, "thorough": 24}
 
 
